@@ -173,9 +173,21 @@ def run(ctx):
     # remainders exactly 0.0 at the breakdown, tolerances on the boundaries (0, norm == tol/2, norm == tol*reference), every
     # max_iters around the grade and around n.  Compared without any excuse (bit-exact runs).
     exact = [L.gen_exact_case(ctx.rng) for _ in range(ctx.budget(150, 900))]
+    # ... and exact inputs with a CONSTANT sub-diagonal (cyclic shifts, companion matrices, non-symmetric tridiagonal Toeplitz from e_1):
+    # the tracked remainder norm is identical bit for bit at every step while the Krylov space grows to dimension n; a few with
+    # n = max_iters straddling 50 and 100
+    exact += [L.gen_constant_recurrence(ctx.rng) for _ in range(ctx.budget(30, 150))]
+    exact_big = []
+    for nb in ctx.budget([52, 101], [33, 52, 64, 101, 130]):
+        cb = L.gen_constant_recurrence(ctx.rng, n=nb); cb["max_iters"] = nb + int(ctx.rng.choice([0, 0, 1])); cb["tol"] = float(ctx.rng.choice([1e-7, 0.0]))
+        cb["entry"] = "arnoldi"
+        exact_big.append(cb)
     if "arnoldi_clip_garbage" in present:      # pinned normalisation: tol = 0 with a zero remainder is 0/0 (region of that flag)
         avoided["exact_tol0"] = sum(1 for c in exact if c["tol"] == 0.0)
         exact = [c for c in exact if c["tol"] != 0.0]
+        exact_big = [c for c in exact_big if c["tol"] != 0.0]
+    n_small_exact = len(exact)
+    exact += exact_big
     # small-scale operators (1e-4 .. 1e-9) with the usual tolerances: region of arnoldi_absolute_clip, used when the flag is gone
     small = [L.gen_small_scale(ctx.rng, nmax=min(nmax, 10)) for _ in range(ctx.budget(40, 240))]
     if "arnoldi_absolute_clip" in present:
@@ -191,7 +203,7 @@ def run(ctx):
     big = []
     for _ in range(ctx.budget(10, 50)):
         c = L.gen_case(ctx.rng, present, nmax=12, force=dict(n=int(ctx.rng.choice([30, 64, 100, 200])), kind="dense"))
-        c["max_iters"] = int(ctx.rng.choice([1, 5, 20, 40]))
+        c["max_iters"] = int(ctx.rng.choice([1, 5, 20, 40, 64, 110]))
         if not L.in_avoided_region(c, present):
             big.append(c)
 
@@ -240,16 +252,33 @@ def run(ctx):
     # exact stream: oracle + plain (gate-free) comparison with the model
     xobs = [L.run_impl(c) for c in exact]
     xok = [i for i, o in enumerate(xobs) if o.get("ok")]
-    xcodes, xerr, _ = eval_cases("c15_exact", [L.coq_case(exact[i], xobs[i], capped, rfix, cfix, afix) for i in xok], fn="acodes_plain")
-    if xerr:
-        mism.append(dict(oracle_fail=False, harness_error=xerr))
-    xbad = {xok[j] for j in (xcodes or {})}
+    xs = [i for i in xok if i < n_small_exact]; xb = [i for i in xok if i >= n_small_exact]
+    xterm = lambda i: L.coq_case(exact[i], xobs[i], capped, rfix, cfix, afix)
+    xcodes, xerr, _ = eval_cases("c15_exact", [xterm(i) for i in xs], fn="acodes_plain")
+    bcodes, berr, _ = eval_cases("c15_exactbig", [xterm(i) for i in xb], fn="acodes_plain", shard=1)
+    if xerr or berr:
+        mism.append(dict(oracle_fail=False, harness_error=xerr or berr))
+    xbad = {xs[j] for j in (xcodes or {})} | {xb[j] for j in (bcodes or {})}
     for i, (c, o) in enumerate(zip(exact, xobs)):
         bad = L.oracle(c, o, present)
         if bad or i in xbad:
             mism.append(dict(oracle_fail=bool(bad), case=c, got={k: o.get(k) for k in ("ok", "err", "shapes", "Q", "H")}, failed_clauses=bad,
                              model_disagrees=("exact-arithmetic case: values of Q/H differ from the model (no tolerance excuse applies)" if i in xbad else None)))
-    for c in gone_region + big:
+    # arnoldi_eigs over tolerances 1e-14..1e-3 and weak couplings 1e-13..1e-3 (float64 and float32): its values must be eig of the
+    # square H of arnoldi() with the same arguments, and the spectrum of A whenever the tolerance resolves the coupling
+    weak = [L.gen_weak_coupling(ctx.rng) for _ in range(ctx.budget(40, 250))]
+    spoil = {"arnoldi_padding", "arnoldi_reltol_first_step", "arnoldi_absolute_clip", "arnoldi_clip_garbage", "arnoldi_start_dtype_cast"} & set(present)
+    if spoil:
+        avoided["weak_coupling_eigs"] = len(weak)
+        weak = []
+    for c in weak:
+        o = L.run_impl(c)
+        bad = L.oracle_eigs(c, o)
+        if bad:
+            mism.append(dict(oracle_fail=True, case=c, got={k: o.get(k) for k in ("ok", "err", "shapes", "eigs", "H")}, failed_clauses=bad))
+    # larger ill-conditioned Krylov sequences (n 40..100, non-normal, spectrum decaying over 8..12 orders, 30..60 steps): oracle only
+    ill = [L.gen_illcond(ctx.rng) for _ in range(ctx.budget(5, 30))]
+    for c in gone_region + big + ill:
         o = L.run_impl(c)
         bad = L.oracle(c, o, present)
         if bad:
@@ -267,7 +296,7 @@ def run(ctx):
         rel = "m<n" if c["max_iters"] < c["n"] else ("m=n" if c["max_iters"] == c["n"] else "m>n")
         mh[rel] = mh.get(rel, 0) + 1
     return dict(
-        evaluations=len(cases) + len(gone_region) + len(big) + len(mixed) + len(exact), distinct_nontrivial=distinct,
+        evaluations=len(cases) + len(gone_region) + len(big) + len(mixed) + len(exact) + len(weak) + len(ill), distinct_nontrivial=distinct,
         rule="square operators n<=%d (dense/Sum/Product/ScalarMul/Kronecker/Diagonal/matmat-defined; real and complex; generic, symmetric, unitary, skew, "
              "block-triangular non-normal with an invariant subspace), starts random/in an invariant subspace (breakdown)/scaled, 1-D and batched, max_iters 1..n+3 "
              "(m<n, m=n, m>n), ten tolerances; non-trivial = n>=3 and max_iters>=2; distinct by hash of (operator data, start, max_iters, tol)" % nmax,
@@ -280,7 +309,7 @@ def run(ctx):
                    breakdown_cases=sum(1 for c in cases if min(c["grades"]) < min(c["max_iters"], c["n"])),
                    complex_cases=sum(1 for c in cases if c["cplx"]), batched_cases=sum(1 for c in cases if c["batch"]),
                    eigs_cases=sum(1 for c in cases if c["entry"] == "arnoldi_eigs"),
-                   avoided_regions=avoided, exact_stream_cases=len(exact), exact_stream_tol0=sum(1 for c in exact if c['tol'] == 0.0), mixed_batches_used=len(mixed), batch_elements_vs_single_start=elem_compared, defect_free_region_cases=len(gone_region), large_oracle_only=len(big),
+                   avoided_regions=avoided, weak_coupling_eigs_cases=len(weak), illconditioned_large_cases=len(ill), exact_stream_cases=len(exact), exact_stream_tol0=sum(1 for c in exact if c['tol'] == 0.0), mixed_batches_used=len(mixed), batch_elements_vs_single_start=elem_compared, defect_free_region_cases=len(gone_region), large_oracle_only=len(big),
                    impl_exceptions=sum(1 for o in obs if not o.get("ok"))))
 
 
